@@ -8,6 +8,7 @@ import (
 	"net/http/httptest"
 	"os"
 	"path/filepath"
+	"strconv"
 	"strings"
 	"time"
 
@@ -82,6 +83,14 @@ func treeOf(v any) any {
 	b, _ := json.Marshal(v)
 	t, _ := model.ParseJSON(b)
 	return t
+}
+
+func isPlainNumber(s string) bool {
+	if s == "" || strings.ContainsAny(s, "xXnNiI_ ") {
+		return false
+	}
+	_, err := strconv.ParseFloat(s, 64)
+	return err == nil
 }
 
 // fromTree decodes a contract JSON tree into a message with the generated codec.
@@ -300,6 +309,25 @@ func buildC08(e *engine, p *rt.Package) {
 							t.Fatalf("%s: reached handler %v.%v", desc, c["service"], c["method"])
 						}
 						seenTree := treeOf(c["request"])
+						// KF-C08-1: path variables reach the handler as raw strings; with the finding open the
+						// numeric ones are read as the numbers they spell so that the rest is still compared
+						if e.avoid("ts_server_path_params_are_strings") {
+							if obj, ok := seenTree.(map[string]any); ok {
+								for _, fd := range info.PathFields {
+									if fd == nil {
+										continue
+									}
+									switch fd.Kind() {
+									case protoreflect.Int32Kind, protoreflect.Sint32Kind, protoreflect.Sfixed32Kind, protoreflect.Uint32Kind, protoreflect.Fixed32Kind,
+										protoreflect.FloatKind, protoreflect.DoubleKind:
+										if sv, ok := obj[fd.JSONName()].(string); ok && isPlainNumber(sv) {
+											obj[fd.JSONName()] = json.Number(sv)
+											res.excluded(e.cfg.Avoid["ts_server_path_params_are_strings"] + ":ts_server_path_params_are_strings")
+										}
+									}
+								}
+							}
+						}
 						back := m.NewReq()
 						if err := fromTree(seenTree, back); err != nil {
 							t.Fatalf("%s: the object passed to the TypeScript handler is not the contract form of the request: %v\nhandler argument: %s", desc, err, short(string(mustJSON(seenTree)), 500))
